@@ -5,7 +5,7 @@ ID = "C06"
 HARNESS_TEST = "TestC06"
 GEN = "c06"
 COQ_MODEL = ["C06/Check.v", "C06/Paths.v", "Gen/C06Facts.v"]
-COQ_PROOF_DEPS = ["C06/Proofs.v", "C06/ProofsExact.v", "C06/ProofsPaths.v"]
+COQ_PROOF_DEPS = ["C06/Proofs.v", "C06/ProofsExact.v", "C06/ProofsPaths.v", "C06/ProofsSpell.v"]
 COQ_OBLIG = ["C06/Property.v", "Gen/C06Oblig.v"]
 CASES_HEADER = "Require Import Nib.C06.Model Nib.C06.Spec Nib.C06.Check."
 CASE_TYPE = "case"
@@ -13,6 +13,13 @@ MISMATCH_FN = "mismatch"
 VIOLATES_FN = "violates"
 RULE = ("case = one history on a fresh chain through BeginBlock/DeliverTx/EndBlock/Commit: bank funding + metadata "
         "(ordinary coins and the gas coin unibi, which is mapped as a coin-born FunToken in ~half of the cases), "
+        "denoms are STRINGS: every name (ucoin<n>, unibi, tf/…, erc20/<address>, IBC vouchers ibc/<SHA256 of a trace>) in 4 "
+        "letter-case spellings (the chain's own; all lower / all upper; alternating case after the last '/'); 60% of the cases "
+        "hold a voucher with holders, (mostly) its mapping, 1-3 CreateFunToken attempts under other spellings of the hash "
+        "(a third with bank metadata and coins under that spelling, a quarter with the other spelling registered first) and "
+        "conversions afterwards, 7% of the random ops are create / metadata / fund / convert / sendToEvm under another "
+        "spelling of a mapped or known denom; the registry is read through FunTokens.Indexes.BankDenom / ERC20Addr (under "
+        "every string spelled so far) and after every CreateFunToken both indexes are queried under all spellings, "
         "1-3 embedded ERC20s (TestERC20 / TestERC20TransferWithFee / TestERC20MaliciousTransfer), then 10-24 ops drawn from "
         "MsgCreateFunToken (coin / erc20, incl. duplicates and nonexistent contracts), MsgConvertCoinToEvm (both births), "
         "precompile sendToBank / sendToEvm / bankMsgSend (direct from an EOA or through a forwarder contract: plain, "
@@ -25,7 +32,8 @@ RULE = ("case = one history on a fresh chain through BeginBlock/DeliverTx/EndBlo
         "Observed after EVERY tx: accepted?, registry, totalSupply, balanceOf(module), bank supply, module escrow per mapping, "
         "actor balances of the touched token/denom. non-trivial = at least two accepted conversions and one of: an accepted "
         "conversion on a fee-on-transfer token, an accepted tx with a reverting/swallowing sub-frame around a conversion, "
-        "or conversions in both directions on one mapping; distinct = distinct input")
+        "conversions in both directions on one mapping, or a CreateFunToken under another spelling of a name that already "
+        "has a mapping; distinct = distinct input")
 ASSUMPTIONS = [
     "ERC20 contracts of ERC20-born mappings are 'conservative': balances change only through transfer/burn by the holder, "
     "the sender is debited exactly the amount, the recipient is credited amount-fee, the fee goes to a sink account "
@@ -65,13 +73,23 @@ def _n(x):
 
 
 def _den(d):
+    """denoms are strings: sp = 0 is the chain's own spelling of the name, sp > 0 the sp-th other spelling (letter case)"""
     if d is None:
         return "(DCoin 998%nat)"
-    if d["k"] == "g":
-        return "DGas"
-    if d["k"] == "t":
-        return "(DCoin %d%%nat)" % (2000 + int(d["n"]))
-    return "(%s %s)" % ("DErc" if d["k"] == "e" else "DCoin", _n(d["n"]))
+    k, n, sp = d["k"], int(d.get("n", 0)), int(d.get("sp") or 0)
+    if k == "g":
+        name, chain = "NCoin 1000%nat", "DGas"
+    elif k == "t":
+        name, chain = "NCoin %d%%nat" % (2000 + n), "(DCoin %d%%nat)" % (2000 + n)
+    elif k == "e":
+        name, chain = "NErc %s" % _n(n), "(DErc %s)" % _n(n)
+    elif k == "i":
+        name, chain = "NIbc %s" % _n(n), "(DIbc %s)" % _n(n)
+    else:
+        name, chain = "NCoin %s" % _n(n), "(DCoin %s)" % _n(n)
+    if sp == 0:
+        return chain
+    return "(DAlt (%s) %s)" % (name, _n(sp))
 
 
 def _amt(op):
@@ -130,7 +148,7 @@ def _op_of(op, tx_ok, ntok):
         base = "CreateFromErc20 %s %s" % (_n(a), _n(t))
     elif k == "tf_create":
         d = op.get("d") or {}
-        if d.get("k") != "t" or d.get("n", 0) // 10 != a or a not in (3, 4):
+        if d.get("k") != "t" or d.get("sp") or d.get("n", 0) // 10 != a or a not in (3, 4):
             base = "Framed FBadArgs (SetMeta (DCoin 0%nat))"
         else:
             base = "TfCreate %s %s" % (_n(a), _den(d))
@@ -180,11 +198,19 @@ def _mobs(m):
             % (_n(m["tok"]), _den(m["d"]), "true" if m["coin"] else "false", _z(m["esup"]), _z(m["emod"]), _z(m["bsup"]), _z(m["bmod"])))
 
 
+def _mref(m):
+    return "{| m_tok := %s; m_den := %s; m_coin := %s |}" % (_n(m["tok"]) if m["tok"] >= 0 else _n(9999), _den(m["d"]),
+                                                              "true" if m["coin"] else "false")
+
+
 def _sobs(ob):
-    return ("{| so_ok := %s; so_reg := [%s]; so_tt := %s; so_ebal := [%s]; so_td := %s; so_bbal := [%s] |}" % (
+    lkd = "; ".join("(%s, [%s])" % (_den(q["d"]), "; ".join(_mref(m) for m in q.get("m") or [])) for q in ob.get("lkd") or [])
+    lkt = "; ".join("(%s, [%s])" % (_n(q["t"]), "; ".join(_mref(m) for m in q.get("m") or [])) for q in ob.get("lkt") or [])
+    return ("{| so_ok := %s; so_reg := [%s]; so_tt := %s; so_ebal := [%s]; so_td := %s; so_bbal := [%s];\n"
+            "        so_lkd := [%s]; so_lkt := [%s] |}" % (
         "true" if ob["ok"] else "false", "; ".join(_mobs(m) for m in ob["reg"]),
         "Some %s" % _n(ob["tt"]) if ob["tt"] >= 0 else "None", "; ".join(_z(x) for x in ob["ebal"]),
-        "Some %s" % _den(ob["td"]) if ob.get("td") else "None", "; ".join(_z(x) for x in ob["bbal"])))
+        "Some %s" % _den(ob["td"]) if ob.get("td") else "None", "; ".join(_z(x) for x in ob["bbal"]), lkd, lkt))
 
 
 def to_coq_case(rec):
@@ -236,7 +262,23 @@ def nontrivial(rec):
             fee = True
         dirs.setdefault(m["tok"], set()).add("out" if op["k"] == "send_to_bank" else "in")
     both = any(len(v) == 2 for v in dirs.values())
-    return conv >= 2 and (fee or frame or both)
+    return conv >= 2 and (fee or frame or both or _respelled_create(rec))
+
+
+def _name(d):
+    return (d["k"], int(d.get("n", 0)))
+
+
+def _respelled_create(rec):
+    """a CreateFunToken (accepted or not) whose denom is ANOTHER spelling of a name that already has a mapping"""
+    prev = []
+    for top, ob in zip(rec["input"], rec["obs"]):
+        for op in _flat(top):
+            d = op.get("d")
+            if op["k"] == "create_coin" and d and any(_name(m["d"]) == _name(d) and m["d"] != d for m in prev):
+                return True
+        prev = ob["reg"]
+    return False
 
 
 def classify(rec):
@@ -250,6 +292,12 @@ def classify(rec):
             tag += "/" + "+".join(x["k"] for x in _flat(op))
         ks.append("op:" + tag)
         ks.append("%s:%s" % (op["k"], "accepted" if ob["ok"] else "rejected"))
+        for sub in _flat(op):
+            d = sub.get("d")
+            if d and d.get("sp"):
+                ks.append("spelling:%s/%s:%s" % (sub["k"], d["k"], "accepted" if ob["ok"] else "rejected"))
+            if d and d["k"] == "i":
+                ks.append("ibc-voucher:%s" % sub["k"])
         if op.get("bad_to"):
             ks.append("malformed:recipient")
         if op.get("gas"):
@@ -264,6 +312,12 @@ def classify(rec):
                 kind = kinds[m["tok"]] if m["tok"] < len(kinds) else "?"
                 ks.append("conv-ok:%s-born/%s" % (born, kind))
     ks.append("mappings=%d" % len(rec["obs"][-1]["reg"]) if rec["obs"] else "mappings=0")
+    if _respelled_create(rec):
+        ks.append("create-under-other-spelling-of-mapped-denom")
+    if rec["obs"]:
+        names = [_name(m["d"]) for m in rec["obs"][-1]["reg"]]
+        if len(set(names)) != len(names):
+            ks.append("two-spellings-of-one-name-mapped")
     return ks
 
 
@@ -319,7 +373,13 @@ MANIFEST = {
                  "donates directly and no token pays fees to the module; fee-on-transfer allowed), C06_unique_mapping + "
                  "C06_duplicate_creation_rejected, C06_margin_never_shrinks, C06_send_to_bank_credits_measured (coins "
                  "credited = MEASURED ERC20 increase, burned/minted/released the same amount), "
-                 "C06_to_evm_coin_born_credits_amount, C06_to_evm_erc20_born_margin. The model is tied to /repo on every "
+                 "C06_to_evm_coin_born_credits_amount, C06_to_evm_erc20_born_margin. Denoms are strings: every letter-case "
+                 "spelling of a name (IBC voucher hash in lower/upper/mixed case, UCOIN0, lower-case erc20/0x…) is a bank "
+                 "denom of its own in the model; C06_guard_checks_what_is_inserted: for ANY denom-rewriting function and any "
+                 "choice of which value (as given / rewritten) the index guard, the metadata lookup and the insert of "
+                 "createFunTokenFromCoin use, the property holds for all histories whenever the guard looks at the value "
+                 "that is inserted; C06_rewrite_after_guard_refuted: it fails when a voucher hash is case-normalised after "
+                 "the guard. The model is tied to /repo on every "
                  "run by executing it against the real keepers through BeginBlock/DeliverTx/EndBlock on generated "
                  "histories (embedded TestERC20, TestERC20TransferWithFee, TestERC20MaliciousTransfer, a returns-false "
                  "ERC20, a forwarder contract producing reverted sub-frames) and comparing after EVERY transaction the "
@@ -341,7 +401,8 @@ MANIFEST = {
                    "definition in the model (C04 carries the theorem) and is CHECKED against the implementation on sub-frame "
                    "reverts, top-level reverts, swallowed failures and out-of-gas. Generated facts (go/ast extractor harness/gen/c06): the "
                    "ordered ledger operations of the seven bridge paths with parties and requested-vs-measured amounts, the shape "
-                   "of ERC20().Transfer, the CreateFunToken guards by index, the StateDB syncs of every bank wrapper; obligations "
+                   "of ERC20().Transfer, the CreateFunToken guards by index, which VALUE of the denom string (as given / rewritten) the guard, "
+                   "the metadata lookup and the insert of createFunTokenFromCoin use, the StateDB syncs of every bank wrapper; obligations "
                    "in Gen/C06Oblig.v equate them with the step lists the model's operations are proved to be. Trusted: Coq kernel + vm_compute, the Go driver and its canonicalisation, two "
                    "hand-assembled contracts (forwarder, returns-false ERC20; listings in coq/C06/README.md), check.py."),
     "technique": ("Coq proof: inductive invariant over operation histories, parametric in ERC20 transfer behaviour; "
